@@ -6,6 +6,7 @@ import Driver.FutexCmds
     dfs <B> <shared> <init> <threads> <depth> <maxSpurious> <stateBudget>
                                                        search the model for crash / stuck Notified
                                                        waiter / miscounted notify (search-on-break)
+    emit wait32|wait64|notify <stackIndex> <offset>    statement text w2c2 emits (model `Futex.Emit`)
 -/
 open Driver.Futex
 
@@ -16,6 +17,7 @@ def handle (line : String) : IO String := do
   match words line with
   | "run" :: rest => return runCmd rest
   | "dfs" :: rest => dfsCmd rest
+  | "emit" :: rest => return emitCmd rest
   | _ => return "err unknown-command"
 
 partial def loop (h : IO.FS.Stream) (out : IO.FS.Stream) : IO Unit := do
